@@ -124,7 +124,7 @@ fn run_protected(case: &Sexp) -> String {
 fn main() {
   let args: Vec<String> = std::env::args().collect();
   let path = &args[1];
-  let threads: usize = args.get(2).and_then(|s| s.parse().ok()).unwrap_or(1);
+  let threads: usize = args.get(2).and_then(|s| s.parse().ok()).unwrap_or(1).max(1);
   let file = std::fs::File::open(path).expect("case file");
   let lines: Vec<String> = std::io::BufReader::new(file)
     .lines()
@@ -132,31 +132,101 @@ fn main() {
     .filter(|l| !l.trim().is_empty())
     .collect();
   std::panic::set_hook(Box::new(|_| {}));
-  let chunk = (lines.len() + threads - 1) / threads.max(1);
-  let chunk = chunk.max(1);
-  let results: Vec<Vec<String>> = std::thread::scope(|sc| {
-    let handles: Vec<_> = lines
-      .chunks(chunk)
-      .map(|ch| {
-        sc.spawn(move || {
-          ch.iter()
-            .map(|line| {
-              let case = sexp::parse(line);
-              let id = case.list()[1].atom().to_string();
-              let t = run_guarded(case);
-              format!("{id} {t}")
-            })
-            .collect::<Vec<_>>()
-        })
-      })
-      .collect();
-    handles.into_iter().map(|h| h.join().unwrap()).collect()
-  });
-  let stdout = std::io::stdout();
-  let mut w = std::io::BufWriter::new(stdout.lock());
-  for r in results {
-    for line in r {
-      writeln!(w, "{}", line.trim_end()).unwrap();
+  // Workers take the cases one by one; a monitor declares a case that has been running for STALL seconds a HANG, leaves
+  // its thread where it is stuck and starts another worker, so that one blocked case (a deadlock under a changed crate,
+  // in a case kind without a watchdog of its own) is an observation and the run still ends.
+  use std::sync::atomic::{AtomicUsize, Ordering};
+  use std::sync::{Arc, Mutex};
+  use std::time::{Duration, Instant};
+  const STALL: u64 = 45;
+  let lines = Arc::new(lines);
+  let next = Arc::new(AtomicUsize::new(0));
+  let results: Arc<Mutex<Vec<Option<String>>>> = Arc::new(Mutex::new(vec![None; lines.len()]));
+  // per worker: the case it is running and since when
+  let running: Arc<Mutex<Vec<Option<(usize, Instant)>>>> = Arc::new(Mutex::new(vec![]));
+  let spawn_worker = {
+    let (lines, next, results, running) = (lines.clone(), next.clone(), results.clone(), running.clone());
+    move || {
+      let (lines, next, results, running) = (lines.clone(), next.clone(), results.clone(), running.clone());
+      let slot = {
+        let mut r = running.lock().unwrap();
+        r.push(None);
+        r.len() - 1
+      };
+      std::thread::spawn(move || loop {
+        let i = next.fetch_add(1, Ordering::SeqCst);
+        if i >= lines.len() {
+          running.lock().unwrap()[slot] = None;
+          break;
+        }
+        running.lock().unwrap()[slot] = Some((i, Instant::now()));
+        let case = sexp::parse(&lines[i]);
+        let id = case.list()[1].atom().to_string();
+        let t = run_guarded(case);
+        let mut res = results.lock().unwrap();
+        if res[i].is_none() {
+          res[i] = Some(format!("{id} {t}"));
+        } else {
+          // declared a HANG meanwhile: this worker has been replaced
+          break;
+        }
+      });
+    }
+  };
+  for _ in 0..threads.min(lines.len().max(1)) {
+    spawn_worker();
+  }
+  let mut hangs = 0usize;
+  loop {
+    std::thread::sleep(Duration::from_millis(50));
+    let done = results.lock().unwrap().iter().all(|r| r.is_some());
+    if done {
+      break;
+    }
+    let mut stalled = vec![];
+    {
+      let mut r = running.lock().unwrap();
+      for slot in r.iter_mut() {
+        if let Some((i, since)) = *slot {
+          // a loaded machine can starve a healthy case: long waits for the first suspects, short ones once hangs are confirmed
+          let limit = if hangs < 4 { STALL } else { 5 };
+          if since.elapsed() > Duration::from_secs(limit) {
+            stalled.push(i);
+            *slot = None;
+          }
+        }
+      }
+    }
+    for i in stalled {
+      let mut res = results.lock().unwrap();
+      if res[i].is_none() {
+        let id = sexp::parse(&lines[i]).list()[1].atom().to_string();
+        res[i] = Some(format!("{id} HANG"));
+        drop(res);
+        hangs += 1;
+        spawn_worker();
+      }
+    }
+    if hangs >= 32 {
+      // enough to report: the cases not yet run stay out of the comparison
+      let mut res = results.lock().unwrap();
+      for (i, r) in res.iter_mut().enumerate() {
+        if r.is_none() {
+          let id = sexp::parse(&lines[i]).list()[1].atom().to_string();
+          *r = Some(format!("{id} NOTRUN"));
+        }
+      }
+      break;
     }
   }
+  let stdout = std::io::stdout();
+  {
+    let mut w = std::io::BufWriter::new(stdout.lock());
+    for r in results.lock().unwrap().iter() {
+      writeln!(w, "{}", r.as_ref().unwrap().trim_end()).unwrap();
+    }
+    w.flush().unwrap();
+  }
+  // threads stuck in a hung case die with the process
+  std::process::exit(0);
 }
